@@ -1157,4 +1157,69 @@ def applied_once(repo: Repo) -> RuleRun:
 applied_once.rule_id = "C09.APPLIED-ONCE"
 
 
-RULES = [arc_sense, purity, no_alias_store, affine_balance, unit_normal, direction_parts, transform_equals_methods, transform_routing, linear_parts, deep_copy, mirror_matrix, no_shared_parts, arguments_untouched, super_forwarding, inplace_then_read, invalidate_last, live_lengths, private_coordinates, live_arrays, displacement_copied, average_axis, unit_axis, mirror_sense, geometry_role_free, applied_once]
+def shear_unit_direction(repo: Repo, prop: str = PROP, rule: str = "C09.SHEAR-UNIT-DIRECTION") -> RuleRun:
+    """'shearing an entity maps every dependent quantity consistently': a shear moves a point along `direction` by distance /
+    tan(angle) - a LENGTH, so the direction it is multiplied with is the unit vector of the argument. Corners (Point.shear) and the
+    points of spline / polyLine edges (Array.shear) are siblings: with a non-unit direction they must move by the same amount, or
+    the edge leaves its face. In every shear method that itself moves coordinates along its `direction` parameter, the value
+    multiplied with the amount is a unit_vector(...) on every path (flow-sensitive over the statements of the method)."""
+    r = RuleRun(prop, rule, floor=2, what="every shear() that moves coordinates along its direction argument normalises that direction first (Point and Array agree for non-unit directions)")
+    n = 0
+    for fn in sorted(repo.all_functions(), key=lambda f_: f_.qualname):
+        if fn.name != "shear" or fn.cls is None or "direction" not in fn.params:
+            continue
+        uses = [b for b in ast.walk(fn.node) if isinstance(b, ast.BinOp) and isinstance(b.op, ast.Mult) and any(isinstance(x, ast.Name) and x.id == "direction" for x in (b.left, b.right))]
+        if not uses:
+            continue  # delegates to its parts
+        n += 1
+        unit = set()
+        verdict = {}
+
+        def visit(body):
+            for st in body:
+                for b in uses:
+                    if any(b is x for x in ast.walk(st)) and not isinstance(st, (ast.For, ast.While, ast.If, ast.With, ast.Try)):
+                        verdict[id(b)] = "direction" in unit
+                if isinstance(st, ast.Assign) and len(st.targets) == 1 and isinstance(st.targets[0], ast.Name):
+                    v = st.value
+                    is_unit = isinstance(v, ast.Call) and (attr_chain(v.func) or "").split(".")[-1] == "unit_vector"
+                    is_unit = is_unit or (isinstance(v, ast.BinOp) and isinstance(v.op, ast.Div) and isinstance(v.right, ast.Call) and (attr_chain(v.right.func) or "").split(".")[-1] == "norm")
+                    if is_unit:
+                        unit.add(st.targets[0].id)
+                    else:
+                        unit.discard(st.targets[0].id)
+                for sub in ("body", "orelse", "finalbody"):
+                    inner = getattr(st, sub, None)
+                    if isinstance(inner, list) and inner and isinstance(inner[0], ast.stmt) and not isinstance(st, (ast.FunctionDef, ast.ClassDef)):
+                        visit(inner)
+
+        visit(fn.node.body)
+        bad = [b for b in uses if not verdict.get(id(b), False)]
+        r.check(
+            not bad,
+            fn,
+            f"{fn.qualname}: moves along unit_vector(direction)",
+            f"{fn.qualname} moves coordinates by '{ast.unparse(bad[0])[:60] if bad else ''}' with the direction as it was passed in: a non-unit direction scales the shear by its length - the points of spline / polyLine edges "
+            "and the corners of the same face (its sibling normalises) move by different amounts and the edge no longer lies on its face",
+            bad[0] if bad else fn.node,
+            key="unit-direction",
+        )
+    r.require(n >= 2, f"only {n} shear methods that move coordinates found")
+    return r
+
+
+shear_unit_direction.rule_id = "C09.SHEAR-UNIT-DIRECTION"
+
+
+def length_direction(repo: Repo) -> RuleRun:
+    """'edge lengths (scaled by the ratio)' - also of an edge that runs against its curve after a mirror / invert: the length between two parameters does not depend on their order. Same rule as C07.LENGTH-DIRECTION."""
+    from ..report import rebrand
+    from . import c07
+
+    return rebrand(c07.length_direction(repo), PROP, "C09.LENGTH-DIRECTION")
+
+
+length_direction.rule_id = "C09.LENGTH-DIRECTION"
+
+
+RULES = [arc_sense, purity, no_alias_store, affine_balance, unit_normal, direction_parts, transform_equals_methods, transform_routing, linear_parts, deep_copy, mirror_matrix, no_shared_parts, arguments_untouched, super_forwarding, inplace_then_read, invalidate_last, live_lengths, private_coordinates, live_arrays, displacement_copied, average_axis, unit_axis, mirror_sense, geometry_role_free, applied_once, shear_unit_direction, length_direction]
